@@ -514,6 +514,28 @@ def parseQual (f10 : Bytes) (seqLen : Nat) : Option Bytes :=
   else if seqLen ≠ 0 then some (List.replicate seqLen 255)
   else none
 
+/-- the sequence field: `*` is the empty sequence, else `NewSeq` -/
+def parseSeq (f9 : Bytes) : List (Fin 16) := if f9 = [42] then [] else f9.map n16
+
+/-- `if len(r.Cigar) != 0 && !r.Cigar.IsValid(r.Seq.Length)`, only when a sequence is given -/
+def checkCigar (hasSeq : Bool) (cigar : List CigarOp) (seqLen : Nat) : Except Fault Unit :=
+  if hasSeq = true ∧ cigar.isEmpty = false then
+    match cigarIsValid cigar seqLen with
+    | none => .error .panic
+    | some false => .error .err
+    | some true => .ok ()
+  else .ok ()
+
+/-- `if len(r.Qual) != 0 && len(r.Qual) != r.Seq.Length` -/
+def checkQualLen (qual : Option Bytes) (seqLen : Nat) : Except Fault Unit :=
+  match qual with
+  | some q => if q.length ≠ 0 ∧ q.length ≠ seqLen then .error .err else .ok ()
+  | none => .ok ()
+
+/-- RNEXT: equal to RNAME, or `=`, means the read's reference -/
+def parseMateRef (h : Option Header) (ref : Option Ref) (f2 f6 : Bytes) : Except Fault (Option Ref) :=
+  if f2 = f6 ∨ f6 = [61] then .ok ref else referenceForName h f6
+
 /-- `Record.UnmarshalSAM(h, b)` -/
 def parseRecord (ft : FloatText) (h : Option Header) (b : Bytes) : Except Fault Record :=
   match splitOn 9 b with
@@ -523,19 +545,13 @@ def parseRecord (ft : FloatText) (h : Option Header) (b : Bytes) : Except Fault 
     let pos ← ofOpt (atoi f3)
     let mapq ← ofOpt (parseUintGo f4 10 8)
     let cigar ← parseCigar f5
-    let mate ← if f2 = f6 ∨ f6 = [61] then pure ref else referenceForName h f6
+    let mate ← parseMateRef h ref f2 f6
     let matePos ← ofOpt (atoi f7)
     let tlen ← ofOpt (atoi f8)
-    let seq : List (Fin 16) := if f9 = [42] then [] else f9.map n16
-    if f9 ≠ [42] ∧ ¬ cigar.isEmpty then
-      match cigarIsValid cigar seq.length with
-      | none => throw .panic
-      | some false => throw .err
-      | some true => pure ()
+    let seq := parseSeq f9
+    checkCigar (f9 != [42]) cigar seq.length
     let qual := parseQual f10 seq.length
-    match qual with
-    | some q => if q.length ≠ 0 ∧ q.length ≠ seq.length then throw .err
-    | none => pure ()
+    checkQualLen qual seq.length
     let aux ← auxf.mapM (parseAux ft)
     pure { name := f0, flags := UInt16.ofNat flags, ref := ref, pos := wrap64 (pos - 1), mapq := UInt8.ofNat mapq,
            cigar := cigar, mateRef := mate, matePos := wrap64 (matePos - 1), tempLen := tlen, seq := seq,
@@ -556,7 +572,7 @@ def stripCR (b : Bytes) : Bytes := if b.getLast? = some 13 then b.dropLast else 
 /-- what successive `Read` calls return for the lines after the header, when the input had a header:
 one result per line -/
 def readAll (ft : FloatText) (h : Header) (body : Bytes) : List (Except Fault Record) :=
-  (readerLines body).map fun l => parseRecord ft (some h) (stripCR l)
+  ((readerLines body).map stripCR).map (parseRecord ft (some h))
 
 /-- `ReadBytes('\n')` when a terminator exists: the line without it, and the rest -/
 def takeLine : Bytes → Option (Bytes × Bytes)
@@ -587,18 +603,20 @@ def resolveSeen (seen : List Bytes) (r : Option Ref) : List Bytes × Option Ref 
     | some i => (seen, some ⟨i, x.name, 0⟩)
     | none => (seen ++ [x.name], some ⟨seen.length, x.name, 0⟩)
 
-def readAllNoHeaderLoop (ft : FloatText) : List Bytes → List Bytes → List (Except Fault Record)
+/-- successive `Read` results in no-header mode over the lines (terminator and CR already removed);
+`seen` = the reference names met so far -/
+def noHeaderLoop (ft : FloatText) : List Bytes → List Bytes → List (Except Fault Record)
   | [], _ => []
   | l :: rest, seen =>
-    match parseRecord ft none (stripCR l) with
-    | .error e => .error e :: readAllNoHeaderLoop ft rest seen
+    match parseRecord ft none l with
+    | .error e => .error e :: noHeaderLoop ft rest seen
     | .ok r =>
       let (seen1, ref) := resolveSeen seen r.ref
       let (seen2, mate) := resolveSeen seen1 r.mateRef
-      .ok { r with ref := ref, mateRef := mate } :: readAllNoHeaderLoop ft rest seen2
+      .ok { r with ref := ref, mateRef := mate } :: noHeaderLoop ft rest seen2
 
 def readAllNoHeader (ft : FloatText) (body : Bytes) : List (Except Fault Record) :=
-  readAllNoHeaderLoop ft (readerLines body) []
+  noHeaderLoop ft ((readerLines body).map stripCR) []
 
 /-! ### BAM view -/
 
